@@ -40,6 +40,9 @@ ASSUMPTIONS = [
 V3 = (0.0, 1.0, 2.0)
 V2 = (0.0, 1.0)
 V4 = (0.0, 1.0, 2.0, 3.0)
+# objective values that are exact Python integers but not doubles (integer nano-units, big-M offsets): the solver must hand
+# the user's own number back, and must not merge distinct values
+VBIG = (2**60, 2**60 + 1, 2**60 + 2)
 
 
 def keyof(x):
@@ -97,7 +100,7 @@ def stopper(k):
 
 def d_anneal(minimize, neg, cfg):
     m = mod("anneal")
-    f = OracleFn(V3, neg)
+    f = OracleFn(cfg.get("values", V3), neg)
     cool = {"exp": 0.9995, "lin": m.linear_cooling(), "log": m.logarithmic_cooling()}[cfg["cooling"]]
 
     def nb(x):
@@ -110,7 +113,7 @@ def d_anneal(minimize, neg, cfg):
 
 def d_tabu(minimize, neg, cfg):
     m = mod("tabu")
-    f = OracleFn(V3, neg)
+    f = OracleFn(cfg.get("values", V3), neg)
     nm = cfg["moves"]
 
     def nbs(s):
@@ -126,7 +129,7 @@ def d_tabu(minimize, neg, cfg):
 
 def d_lns(minimize, neg, cfg):
     m = mod("lns")
-    f = OracleFn(V3, neg)
+    f = OracleFn(cfg.get("values", V3), neg)
 
     def destroy(s, rng):
         return ("partial", s)
@@ -146,7 +149,7 @@ ALNS_W = {"d": [1.0, 1.0], "r": [1.0, 1.0], "fresh": True}
 
 def d_alns(minimize, neg, cfg):
     m = mod("lns")
-    f = OracleFn(V3, neg)
+    f = OracleFn(cfg.get("values", V3), neg)
     d_ops = [lambda s, r: ("a", s), lambda s, r: ("b", s)]
     r_ops = [lambda p, r: (p[1] + 1) % 3, lambda p, r: (p[1] + 2) % 3]
     extra = {}
@@ -162,7 +165,7 @@ def d_alns(minimize, neg, cfg):
 
 def d_evolve(minimize, neg, cfg):
     m = mod("genetic")
-    f = OracleFn(V3, neg)
+    f = OracleFn(cfg.get("values", V3), neg)
     with Patched("genetic"):
         res = m.evolve(f, [0, 1, 2], lambda a, b: (a + b) % 4, lambda c: (c + 1) % 4, minimize=minimize, elite_size=cfg.get("elite", 1), mutation_rate=0.5, adaptive_mutation=cfg["adaptive"], max_iter=cfg["max_iter"], tournament_k=cfg["k"], seed=1, **stopper(cfg.get("stop")))
     return res, f, None
@@ -214,13 +217,14 @@ def d_bfgs(minimize, neg, cfg):
 
 DRIVERS = {
     # start=1: the falsy solution 0 is then a candidate the search can move to, not the point it starts from
-    "anneal": (d_anneal, [dict(cooling=c, max_iter=3, stop=s) for c in ("exp", "lin", "log") for s in (0, 1, 2)] + [dict(cooling=c, max_iter=3, stop=0, start=1) for c in ("exp", "lin")], None),
-    "tabu_search": (d_tabu, [dict(moves=mv, cooldown=cd, max_iter=3, stop=s) for mv in (2, 3) for cd in (1, 2) for s in (0, 1, 2)] + [dict(moves=mv, cooldown=cd, max_iter=3, stop=0, start=1) for mv in (2, 3) for cd in (1, 2)], None),
-    "lns": (d_lns, [dict(accept=a, max_iter=3 if a != "simulated_annealing" else 2, stop=s) for a in ("improving", "accept_all", "simulated_annealing") for s in (0, 1, 2)] + [dict(accept="simulated_annealing", cooling_rate=1e-6, max_iter=3, stop=0)] + [dict(accept=a, max_iter=2, stop=0, start=1) for a in ("improving", "accept_all")], None),  # last: temperature frozen (< 1e-10) from the third iteration on
-    "alns": (d_alns, [dict(accept="improving", max_iter=2, segment=sg, stop=s) for sg in (1, 2) for s in (0, 1)] + [dict(accept="simulated_annealing", max_iter=2, segment=1, stop=0, max_dev=3), dict(accept="accept_all", max_iter=3, segment=2, stop=0, max_dev=3), dict(accept="accept_all", max_iter=3, segment=2, stop=2, max_dev=3), dict(accept="accept_all", max_iter=2, segment=1, stop=1), dict(accept="simulated_annealing", max_iter=3, segment=1, stop=2, max_dev=3), dict(accept="simulated_annealing", cooling_rate=1e-6, max_iter=3, segment=1, stop=0, max_dev=3), dict(accept="improving", max_iter=2, segment=1, stop=0, start=1), dict(accept="accept_all", max_iter=3, segment=1, stop=0, weights=True, max_dev=3)], None),
+    "anneal": (d_anneal, [dict(cooling=c, max_iter=3, stop=s) for c in ("exp", "lin", "log") for s in (0, 1, 2)] + [dict(cooling=c, max_iter=3, stop=0, start=1) for c in ("exp", "lin")] + [dict(cooling="exp", max_iter=3, stop=0, values=VBIG)], None),
+    "tabu_search": (d_tabu, [dict(moves=mv, cooldown=cd, max_iter=3, stop=s) for mv in (2, 3) for cd in (1, 2) for s in (0, 1, 2)] + [dict(moves=mv, cooldown=cd, max_iter=3, stop=0, start=1) for mv in (2, 3) for cd in (1, 2)] + [dict(moves=2, cooldown=1, max_iter=3, stop=0, values=VBIG)], None),
+    "lns": (d_lns, [dict(accept=a, max_iter=3 if a != "simulated_annealing" else 2, stop=s) for a in ("improving", "accept_all", "simulated_annealing") for s in (0, 1, 2)] + [dict(accept="simulated_annealing", cooling_rate=1e-6, max_iter=3, stop=0)] + [dict(accept=a, max_iter=2, stop=0, start=1) for a in ("improving", "accept_all")] + [dict(accept="improving", max_iter=3, stop=0, values=VBIG)], None),  # before the big-integer one: temperature frozen (< 1e-10) from the third iteration on
+    "alns": (d_alns, [dict(accept="improving", max_iter=2, segment=sg, stop=s) for sg in (1, 2) for s in (0, 1)] + [dict(accept="simulated_annealing", max_iter=2, segment=1, stop=0, max_dev=3), dict(accept="accept_all", max_iter=3, segment=2, stop=0, max_dev=3), dict(accept="accept_all", max_iter=3, segment=2, stop=2, max_dev=3), dict(accept="accept_all", max_iter=2, segment=1, stop=1), dict(accept="simulated_annealing", max_iter=3, segment=1, stop=2, max_dev=3), dict(accept="simulated_annealing", cooling_rate=1e-6, max_iter=3, segment=1, stop=0, max_dev=3), dict(accept="improving", max_iter=2, segment=1, stop=0, start=1), dict(accept="accept_all", max_iter=3, segment=1, stop=0, weights=True, max_dev=3), dict(accept="improving", max_iter=2, segment=1, stop=0, values=VBIG)], None),
     "evolve": (
         d_evolve,
         [dict(adaptive=ad, k=1, max_iter=1, stop=0, elite=1) for ad in (False, True)]
+        + [dict(adaptive=False, k=1, max_iter=1, stop=0, elite=1, values=VBIG)]
         + [dict(adaptive=ad, k=1, max_iter=1, stop=0, elite=0, max_dev=4) for ad in (False, True)]
         + [dict(adaptive=ad, k=2, max_iter=2, stop=s, max_dev=3) for ad in (False, True) for s in (0, 1)]
         + [dict(adaptive=False, k=1, max_iter=2, stop=0, elite=0, max_dev=3), dict(adaptive=False, k=2, max_iter=3, stop=0, elite=0, max_dev=2)],
@@ -229,14 +233,15 @@ DRIVERS = {
     "differential_evolution": (
         d_de,
         [dict(strategy=st, max_iter=1, init=[[0.0], [1.0], [2.0], [3.0]], stop=0) for st in ("rand/1", "best/1")]
+        + [dict(strategy="best/1", max_iter=1, init=[[0.0], [1.0], [2.0], [3.0]], stop=0, values=VBIG[:2])]
         + [dict(strategy="rand/1", max_iter=1, init=[[-1.0], [1.0], [5.0], [3.0]], stop=0), dict(strategy="best/1", max_iter=2, init=[[0.0], [1.0], [2.0], [3.0]], stop=1, values=V3, max_dev=3), dict(strategy="rand/1", max_iter=2, init=None, stop=0, values=V3, max_dev=3)]
         # steps longer than the box is wide (mutation factor > 1, two difference vectors): the mutant overshoots by more than one box width
         + [dict(strategy=st, mutation=2.0, max_iter=1, init=[[0.0], [1.0], [2.0], [3.0]], stop=0) for st in ("rand/1", "best/1")]
         + [dict(strategy="best/2", pop=5, max_iter=1, init=[[0.0], [1.0], [2.0], [3.0], [4.0]], stop=0, max_dev=3), dict(strategy="rand/2", pop=6, mutation=1.5, max_iter=1, init=[[0.0], [1.0], [2.0], [3.0], [4.0], [0.5]], stop=0, max_dev=2)],
         None,
     ),
-    "particle_swarm": (d_pso, [dict(max_iter=1, init=[[1.0], [3.0]], stop=0), dict(max_iter=1, init=[[0.0], [4.0]], stop=0), dict(max_iter=2, init=[[1.0], [3.0]], stop=1, values=V3, max_dev=3), dict(max_iter=2, init=None, stop=0, values=V3, max_dev=3)], None),
-    "nelder_mead": (d_nm, [dict(x0=[0.0], max_iter=mi, adaptive=False, stop=s) for mi in (1, 2, 3) for s in (0, 1, 2)] + [dict(x0=[0.0], max_iter=mi, adaptive=False, stop=0, values=V4) for mi in (1, 2)] + [dict(x0=[0.0, 0.0], max_iter=1, adaptive=False, stop=0, values=V4)] + [dict(x0=[0.0, 0.0], max_iter=2, adaptive=ad, stop=s) for ad in (False, True) for s in (0, 1)] + [dict(x0=[0.0, 0.0], max_iter=4, adaptive=False, stop=0, max_dev=5)], None),  # last: room for two shrink steps
+    "particle_swarm": (d_pso, [dict(max_iter=1, init=[[1.0], [3.0]], stop=0), dict(max_iter=1, init=[[1.0], [3.0]], stop=0, values=VBIG[:2]), dict(max_iter=1, init=[[0.0], [4.0]], stop=0), dict(max_iter=2, init=[[1.0], [3.0]], stop=1, values=V3, max_dev=3), dict(max_iter=2, init=None, stop=0, values=V3, max_dev=3)], None),
+    "nelder_mead": (d_nm, [dict(x0=[0.0], max_iter=2, adaptive=False, stop=0, values=VBIG)] + [dict(x0=[0.0], max_iter=mi, adaptive=False, stop=s) for mi in (1, 2, 3) for s in (0, 1, 2)] + [dict(x0=[0.0], max_iter=mi, adaptive=False, stop=0, values=V4) for mi in (1, 2)] + [dict(x0=[0.0, 0.0], max_iter=1, adaptive=False, stop=0, values=V4)] + [dict(x0=[0.0, 0.0], max_iter=2, adaptive=ad, stop=s) for ad in (False, True) for s in (0, 1)] + [dict(x0=[0.0, 0.0], max_iter=4, adaptive=False, stop=0, max_dev=5)], None),  # last: room for two shrink steps
     "bayesian_opt": (d_bayes, [dict(acq=a, max_iter=3, stop=0) for a in ("ei", "ucb")] + [dict(acq="ei", max_iter=4, stop=s, max_dev=2) for s in (0, 3)], None),
     "bfgs": (d_bfgs, [dict(which=w, max_iter=2, stop=s, max_dev=2) for w in ("bfgs", "lbfgs") for s in (0, 1)], "point_only"),
 }
